@@ -26,6 +26,29 @@ TB = ('Trusted: Lean 4.33 kernel; axioms propext/Classical.choice/Quot.sound onl
       'no sorry, no own axioms); the translator and the correspondence harness; the shims for datedelta/grapheme/ruamel; '
       'CPython/regex behaviour. ')
 
+check('C14', 'proof',
+      'Lean model of datatypes_timex_expression parse / infer / format (the working tree\'s package, never site-packages). '
+      'Proved for ALL strings of the 12 date patterns, the 4 time patterns and PRESENT_REF (digits universally quantified): '
+      'parse_format_fields (parse∘format∘parse = parse), format_idempotent, canonical_fixed; from_date / from_date_time / '
+      'from_time produce the canonical ISO rendering for every valid date 0001..9999 and every time; the pattern texts, '
+      'TimexCreator constants and DAYS the proofs were written for are re-read from the tree each run (genCfg_ok). '
+      'Durations (beyond the integral format side) and date+time combinations are covered by unit correspondence '
+      '(~18k parse cases + 10k from_* cases per quick run) and property oracles only — stated, not proved.',
+      TB + 'CPython Decimal printing is modelled (incl. scientific form). One recorded finding: tiny-amount-scientific.',
+      'Lean 4 proof about a faithful model + unit correspondence against the working tree\'s package',
+      'DESIGN.md §3 C14')
+
+check('C15', 'proof',
+      'Proved for all inputs on the Lean model of TimexResolver / TimexHelpers / TimexConstraintsHelper: weekday_resolve '
+      '(exactly two date values, the asked weekday strictly before / after the reference, within 7 days), duration_seconds '
+      '(all seven units), year_range, month_range including December, week_range (Monday to next Monday from CPython\'s ISO '
+      'week rule), collapse_terminates (at most len(ranges) rounds for any overlap predicate). TimexRangeResolver.evaluate '
+      'soundness/completeness is NOT proved: it is covered by model-vs-tree correspondence (~81k operations per quick run, '
+      'every resolver/evaluate call in a guarded worker with time and memory limits) and independent property oracles.',
+      TB + 'Nine defects of the package found by this check were repaired in /repo (fix: commits listed in known_findings.json).',
+      'Lean 4 proof about a faithful model + unit and pipeline correspondence',
+      'DESIGN.md §3 C15')
+
 check('C16', 'proof',
       'Lean theorems for every string, dictionary and query and any Unicode database: both tokenizers produce in-bounds, '
       'non-empty, ordered, non-overlapping tokens whose text is the input slice and which cover exactly the non-space '
